@@ -984,8 +984,10 @@ namespace k1
         if (haveWrapper) sink.count("c09_partial_with_wrapper_member");
 
         const int rounds = 20;
+        const long violBefore = sink.violTotal();
         for (int round = 0; round < rounds; ++round)
         {
+            if (sink.violTotal() != violBefore) break;  // one report per case: later rounds would repeat the same cause
             ob::ScopedState<> sd(dsp), ss(ssp);
             fillState(rng, D.t, sd.get(), 1);
             fillState(rng, S.t, ss.get(), 1);
@@ -2363,7 +2365,7 @@ int main(int argc, char **argv)
     ompl::msg::setLogLevel(ompl::msg::LOG_NONE);
     atexit(rmtmpdir);
     Sink sink(a);
-    long total = (long)((a.thorough() ? 6400 : 1600) * a.scale);
+    long total = (long)((a.thorough() ? 6400 : 1280) * a.scale);
     // case kinds in a fixed rotation of 16: 3x state round trips, 2x partial copies, 4x StateStorage, 5x geometric, 2x control
     static const int rota[16] = {0, 3, 2, 1, 3, 4, 2, 0, 3, 2, 1, 3, 4, 2, 0, 3};
     for (long c = 0; c < total; ++c)
